@@ -54,7 +54,7 @@ MUTANTS = [
     M("c06-split-stale-size", "C06", "break", [(OPS, "QBytesTensor(input.qtype, input.axis, out_data.size(), out_data.stride(), out_data, input._scale)\n        for out_data in out_datas", "QBytesTensor(input.qtype, input.axis, input.size(), input.stride(), out_data, input._scale)\n        for out_data in out_datas")], "C06.R1"),
     M("c06-view-stale-stride", "C06", "break", [(OPS, "return QBytesTensor(input.qtype, None, out_data.size(), out_data.stride(), out_data, input._scale)\n    return qfallback(op, input, *shape)", "return QBytesTensor(input.qtype, None, out_data.size(), input.stride(), out_data, input._scale)\n    return qfallback(op, input, *shape)")], "C06.R1"),
     M("c06-tocopy-data-dtype", "C06", "break", [(OPS, "out_data = op(t._data, dtype=t._data.dtype, **kwargs)", "out_data = op(t._data, dtype=dtype, **kwargs)")], "C06.R4"),
-    M("c06-tocopy-scale-nodtype", "C06", "break", [(OPS, "out_scale = op(t._scale, dtype=dtype, **kwargs)", "out_scale = op(t._scale, **kwargs)")], "C06.R4"),
+    M("c06-tocopy-scale-nodtype", "C06", "break", [(OPS, "out_scale = op(t._scale, dtype=dtype, **scale_kwargs)", "out_scale = op(t._scale, **scale_kwargs)")], "C06.R4"),
     M("c06-wrapper-dtype-fixed", "C06", "break", [(QB, "cls, size, strides=stride, dtype=scale.dtype, device=data.device", "cls, size, strides=stride, dtype=torch.float32, device=data.device")], "C06.R3"),
     M("c06-wrapper-device-scale", "C06", "break", [(QBITS, "cls, size, strides=stride, dtype=scale.dtype, device=data.device", "cls, size, strides=stride, dtype=scale.dtype, device=scale.device")], "C06.R3"),
     M("c06-unflatten-swap", "C06", "break", [(QB, 'data, scale = inner_tensors["_data"], inner_tensors["_scale"]', 'scale, data = inner_tensors["_data"], inner_tensors["_scale"]')], "C06.R5"),
